@@ -391,11 +391,22 @@ func genCall() *rapid.Generator[call] {
 	})
 }
 
+// couple makes the rare conjunctions of independently drawn choices common enough: a blank Print/Println (the
+// shortcut that writes a bare newline) on a logger that admits nothing, or only a little ("if it is not admitted no
+// destination is written to at all" holds for the shortcut too).
+func couple(t *rapid.T, c *config, k *call) {
+	blank := k.PrintlnMode == "noargs" || (k.R == slog.AlwaysLevel && strings.Trim(k.Msg, " \t\r\n") == "")
+	if blank && rapid.IntRange(0, 2).Draw(t, "blankCallOnAQuietLogger") == 0 {
+		c.L = rapid.SampledFrom([]slog.Level{slog.OffLevel, slog.OffLevel, slog.PanicLevel, slog.ErrorLevel}).Draw(t, "quietLevel")
+	}
+}
+
 func TestDelivery(t *testing.T) {
 	vlib.ManyCallSites() // a long-running process has seen thousands of call sites
 	rapid.Check(t, func(t *rapid.T) {
 		c := genConfig().Draw(t, "config")
 		k := genCall().Draw(t, "call")
+		couple(t, &c, &k)
 		run(t, "TestDelivery", c, k)
 	})
 }
@@ -405,6 +416,7 @@ func FuzzDelivery(f *testing.F) {
 	f.Fuzz(rapid.MakeFuzz(func(t *rapid.T) {
 		c := genConfig().Draw(t, "config")
 		k := genCall().Draw(t, "call")
+		couple(t, &c, &k)
 		run(t, "FuzzDelivery", c, k)
 	}))
 }
